@@ -15,9 +15,9 @@ Lemma enqueue_accepted s k s' id :
   (if k =? 0 then exists rest, pool s = id :: rest /\ s' = register (set_pool s rest) id true
    else id = k /\ s' = register s k false).
 Proof.
-  unfold enqueue. destruct (closed s); [discriminate|].
+  unfold enqueue; rewrite ?check2_eq. destruct (closed s); [discriminate|].
   destruct (k =? 0).
-  - destruct (pool s) as [|i rest] eqn:Hp; [discriminate|]. rewrite check_set_pool.
+  - destruct (pool s) as [|i rest] eqn:Hp; [discriminate|]. rewrite ?check2_eq, check_set_pool.
     destruct (check s i) eqn:Hck; [discriminate|]. intros [= <- <-].
     apply check_None in Hck. destruct Hck. repeat split; auto. now exists rest.
   - destruct (check s k) eqn:Hck; [discriminate|]. intros [= <- <-].
@@ -75,8 +75,8 @@ Definition removes (o : op) (k : Z) : Prop := (exists tag, o = Deliver k true ta
 Lemma enqueue_keeps s k0 k r :
   In (k, r) (inflight s) -> In (k, r) (inflight (fst (enqueue s k0))).
 Proof.
-  intros Hin. unfold enqueue. destruct (closed s); [assumption|]. destruct (k0 =? 0).
-  - destruct (pool s) as [|i rest]; [assumption|]. rewrite check_set_pool. destruct (check s i) eqn:Hck; cbn [fst].
+  intros Hin. unfold enqueue; rewrite ?check2_eq. destruct (closed s); [assumption|]. destruct (k0 =? 0).
+  - destruct (pool s) as [|i rest]; [assumption|]. rewrite ?check2_eq, check_set_pool. destruct (check s i) eqn:Hck; cbn [fst].
     + unfold release. destruct (_ <? _); assumption.
     + apply check_None in Hck. destruct Hck as [_ Hnot]. unfold register. cbn [inflight set_pool].
       rewrite (remove_key_notin _ _ Hnot). apply in_app_iff. now left.
@@ -139,19 +139,19 @@ Proof.
   assert (Hc : closed s = false).
   { destruct (closed s) eqn:E; [|reflexivity]. rewrite (inv_closed s HI E) in Hfull. cbn in Hfull. lia. }
   destruct (conservation_facts s HI Hc) as (_ & _ & Hsum).
-  cbn [step]. unfold enqueue. rewrite Hc.
+  cbn [step]. unfold enqueue; rewrite ?check2_eq. rewrite Hc.
   assert (Hck : forall pl i, check (set_pool s pl) i = Some ETooMany).
   { intros. unfold check. cbn [set_pool inflight cfgN]. rewrite HN, Hfull, Z.eqb_refl. reflexivity. }
   destruct (k =? 0).
   - destruct (pool s) as [|i rest] eqn:Hp.
     + exists ENoId, s. repeat split; auto. rewrite Hp. constructor.
-    + rewrite Hck. unfold release. cbn [set_pool pool cfgN].
+    + rewrite ?check2_eq, Hck. unfold release. cbn [set_pool pool cfgN].
       assert (Hroom : zlen rest <? cfgN s = true).
       { rewrite zlen_cons in Hsum. pose proof (zlen_nonneg (managed_keys (inflight s))). lia. }
       rewrite Hroom. exists ETooMany, (set_pool (set_pool s rest) (rest ++ [i])).
       repeat split; auto. cbn [set_pool pool]. symmetry. apply Permutation_cons_append.
   - specialize (Hck (pool s) k). assert (Heq : set_pool s (pool s) = s) by (destruct s; reflexivity). rewrite Heq in Hck.
-    rewrite Hck. exists ETooMany, s. repeat split; auto.
+    rewrite ?check2_eq, Hck. exists ETooMany, s. repeat split; auto.
 Qed.
 
 (* a managed send never blocks and never hands out a duplicate: whatever the state, its outcome is one of these *)
@@ -160,10 +160,10 @@ Theorem managed_send_outcomes s :
   (exists s' e, step s SendManaged = (s', ORefused e) /\ inflight s' = inflight s).
 Proof.
   cbn [step SendManaged]. destruct (enqueue s 0) as [s' o] eqn:He.
-  pose proof He as He'. unfold enqueue in He. destruct (closed s).
+  pose proof He as He'. unfold enqueue in He; rewrite ?check2_eq in He. destruct (closed s).
   - inversion He; subst. right. eauto.
   - cbn in He. destruct (pool s) as [|i rest]; [inversion He; subst; right; eauto|].
-    rewrite check_set_pool in He. destruct (check s i) eqn:Hck.
+    rewrite ?check2_eq, check_set_pool in He. destruct (check s i) eqn:Hck.
     + inversion He; subst. right. do 2 eexists. split; [reflexivity|]. unfold release. destruct (_ <? _); reflexivity.
     + inversion He; subst. left. do 2 eexists. split; [reflexivity|]. apply check_None in Hck. tauto.
 Qed.
@@ -173,7 +173,7 @@ Theorem explicit_reuse_refused s k :
   k <> 0 -> In k (keys (inflight s)) ->
   exists e, step s (SendExplicit k) = (s, ORefused e) /\ (e = EInUse \/ e = ETooMany \/ e = EClosed).
 Proof.
-  intros Hk Hin. cbn [step SendExplicit]. unfold enqueue. destruct (closed s); [exists EClosed; auto|].
+  intros Hk Hin. cbn [step SendExplicit]. unfold enqueue; rewrite ?check2_eq. destruct (closed s); [exists EClosed; auto|].
   destruct (Z.eqb_spec k 0); [contradiction|].
   unfold check. destruct (_ =? _); [exists ETooMany; auto|].
   apply memZ_true_iff in Hin. rewrite Hin. exists EInUse. auto.
@@ -230,7 +230,7 @@ Proof.
       apply memZ_true_iff in E. rewrite Hp in Hnd. cbn [app] in Hnd. inversion Hnd as [|? ? Hnot _]; subst.
       exfalso. apply Hnot. apply in_app_iff. now right. }
     pose proof (enqueue_inv s 0 HI) as HI'.
-    unfold enqueue in *. rewrite Hc, Hp in *. cbn [Z.eqb] in *. rewrite check_set_pool, Hck in *. cbn [fst] in *.
+    unfold enqueue in *; rewrite ?check2_eq in *. rewrite Hc, Hp in *. cbn [Z.eqb] in *. rewrite ?check2_eq, check_set_pool, Hck in *. cbn [fst] in *.
     set (s1 := register (set_pool s rest) id true) in *.
     assert (Hp1 : pool s1 = rest) by reflexivity.
     assert (Hc1 : closed s1 = false) by exact Hc.
